@@ -340,6 +340,38 @@ def axioms_E2():
     ]
 
 
+def raises_ord():
+    V = _V()
+    return z3.Function("raises_ord_Val", V, V, z3.BoolSort())
+
+
+def axioms_PS8():
+    """PS8: whether an order comparison (<=, >=) of two values raises is a deterministic function of the two values, does not
+    depend on the side a value is on, and a deep copy behaves like the original."""
+    V = _V()
+    a, b = z3.Consts("ps8!a ps8!b", V)
+    r = raises_ord()
+    dc = z3.Function("deepcopy_Val", V, V)
+    return [
+        z3.ForAll([a, b], r(a, b) == r(b, a), patterns=[r(a, b)]),
+        z3.ForAll([a, b], r(dc(a), b) == r(a, b), patterns=[r(dc(a), b)]),
+    ]
+
+
+def s_cmp_raises(I, a, b):
+    return SV(raises_ord()(val_term(I, a), val_term(I, b)), BOOL)
+
+
+def ord_may_raise(I, opname, za, zb, node):
+    """ghost option cmp_may_raise: an order comparison of two abstract values raises iff raises_ord(a, b) (PS8)"""
+    from .core import RaiseSig
+
+    if opname not in ("le", "ge", "lt", "gt") or I.V.in_contract_expr:
+        return
+    if I.ctx.branch(raises_ord()(za, zb)):
+        raise RaiseSig("CmpError", info=[f"{opname} raised"])
+
+
 def axioms_E1():
     """E1: == on recorded values is an equivalence relation, invariant under deepcopy."""
     V = _V()
@@ -374,7 +406,8 @@ def s_same(I, a, b):
 
 
 SPEC_NS.update({"deepcopy": s_deepcopy, "le": s_le, "ge": s_ge, "contains": s_contains, "same": s_same, "undefined": Ellipsis})
-AXIOM_SETS.update({"val": axioms_val, "E2": axioms_E2, "E1": axioms_E1})
+AXIOM_SETS.update({"val": axioms_val, "E2": axioms_E2, "E1": axioms_E1, "PS8": axioms_PS8})
+SPEC_NS.update({"cmp_raises": s_cmp_raises})
 
 
 def s_all_obs(I, obs, body, ety_name=None):
@@ -421,6 +454,10 @@ def _nt(I, node):
     if node is None:
         return I.V.none_const(Abs("Node"))
     if isinstance(node, Opaque):
+        return z3.Const(I.ctx.fresh_name("unknown_node"), _N())
+    if not (isinstance(node, SV) and node.t.sort() == _N()):
+        # a value of another sort where an ast node is expected (e.g. an element of an untyped local list): nothing is known of it
+        I.V.cover(I, "node-of-unknown-sort")
         return z3.Const(I.ctx.fresh_name("unknown_node"), _N())
     return node.t
 
